@@ -44,4 +44,6 @@ def main : IO Unit := do
     loop h out ({} : Classes.DState) Classes.driverStep {}
   | some (.list [.atom "model", .atom "ident"]) =>
     loop h out ({} : Ident.World) Ident.driverStep {}
+  | some (.list [.atom "model", .atom "savesteps"]) =>
+    loop h out () SaveSteps.driverStep ()
   | _ => out.putStrLn "unknown-model"
